@@ -52,10 +52,19 @@ class HexText:
         self.b = b
 
 
+_OPT = [0]          # option flags of the dumps() call being modelled
+
+
 def J(obj, default):
     """orjson's documented mapping, applied to proxies as well"""
     import dataclasses
     import enum
+    import orjson as _real_orjson
+    if _OPT[0] & _real_orjson.OPT_PASSTHROUGH_DATETIME and isinstance(obj, (SymDate, SymTime, datetime, date, time)):
+        # OPT_PASSTHROUGH_DATETIME: datetime, date and time instances are handed to `default`
+        if default is None:
+            raise TypeError("Type is not JSON serializable: %s" % type(obj).__name__)
+        return J_after_default(default(obj), default)
     if obj is None or isinstance(obj, (bool, str, HexText, IsoText)):
         return obj
     if isinstance(obj, int):
@@ -146,6 +155,17 @@ def _tree_eq(e, g):
     return numkernel.eq_term(e, g)
 
 
+def J_after_default(v, default):
+    saved = _OPT[0]
+    try:
+        import orjson as _real_orjson
+        if isinstance(v, (SymDate, SymTime, datetime, date, time)):
+            raise TypeError("default returned a datetime again")
+        return J(v, default)
+    finally:
+        _OPT[0] = saved
+
+
 class _BytesProxy:
     """a bytes value whose content is symbolic: the library's `default` calls .hex() on it"""
 
@@ -156,11 +176,27 @@ class _BytesProxy:
         return HexText(self.b)
 
 
-class _Orjson:
+class _OrjsonMeta(type):
+    def __getattr__(cls, k):
+        import orjson as _real_orjson
+        if k.startswith("OPT_"):
+            return getattr(_real_orjson, k)
+        raise AttributeError(k)
+
+
+class _Orjson(metaclass=_OrjsonMeta):
     JSONDecodeError = ValueError
 
     @staticmethod
     def dumps(obj, default=None, option=None):
+        import orjson as _real_orjson
+        known = _real_orjson.OPT_PASSTHROUGH_DATETIME | _real_orjson.OPT_NAIVE_UTC | _real_orjson.OPT_UTC_Z | _real_orjson.OPT_SORT_KEYS | _real_orjson.OPT_APPEND_NEWLINE
+        if option and option & ~known:
+            raise Unsupported("orjson option %#x is not part of the contract model" % option)
+        if option and option & (_real_orjson.OPT_SORT_KEYS | _real_orjson.OPT_APPEND_NEWLINE):
+            raise Unsupported("orjson OPT_SORT_KEYS / OPT_APPEND_NEWLINE change the text, which the model does not represent")
+        _OPT[0] = option or 0
+
         def dflt(o):
             if isinstance(o, _BytesProxy):
                 # route through the library's default with a real bytes-like test: isinstance(o, (bytes, bytearray)) is what it checks
